@@ -28,6 +28,7 @@ G2 = [
     T(["E", "e3", "a+", "b-", "1", "2", "1", "2", "*"]),       # internal
     T(["G", "g1", "a+", "b+", "10", "*"]),
     T(["F", "a", "x+", "0", "2", "0", "2", "*"]),
+    T(["F", "b", "x-", "1", "3", "0", "2", "*"]),      # same external sequence
     T(["O", "o1", "a+ b+"]),
     T(["O", "o2", "e1+"]),
     T(["O", "o3", "o1+"]),
@@ -35,4 +36,4 @@ G2 = [
     T(["U", "u2", "u1 o1"]),
     T(["U", "u1", "b"]),
 ]
-G2_CORE = [G2[i] for i in (0, 1, 3, 4, 7, 9, 10, 12, 13)]
+G2_CORE = [G2[i] for i in (0, 1, 3, 4, 7, 8, 9, 10, 11, 13, 14)]
